@@ -146,7 +146,14 @@ def qos0_exempt(code, bb):
         si = code.switch_info(sbb)
         r, n = chain(si["subject"])
         txt = show(si["subject"])
-        if si["enum"] == "core::option::Option" and "then" in txt and si["edges"].get("None") is not None:
+        if si["enum"] != "core::option::Option" or si["edges"].get("None") is None:
+            continue
+        alloc = outq.allocator(code.facts)
+        alts = phi_alts(peel(si["subject"]))
+        # the Option holding the freshly allocated identifier: `cond.then(|| alloc())` or None / Some(alloc()) alternatives
+        is_id = "then" in txt or (any(a[0] == "agg" and a[3] == "Some" and a[5] and peel(a[5][0])[0] == "call" and peel(a[5][0])[2] == alloc.name for a in alts)
+                                  and all(a[0] == "agg" and a[2] == "core::option::Option" for a in alts))
+        if is_id:
             edges.append((sbb, si["edges"]["None"]))
     # `if let Some(packet_id) = packet_id { ...; return } <qos0 code>`: reachable only via the None edge
     return bool(edges) and code.must_pass([0], [bb], via_edges=edges)[0]
